@@ -37,7 +37,7 @@ func (c11) Plan(tier string) []core.Segment {
 	return []core.Segment{
 		{Gen: "small", Profile: a, Count: gen.Size("small", a), Exhaustive: true, Desc: "all strings up to the bound over {*,_,a,SP,.}", Batch: 100000},
 		{Gen: "small", Profile: b, Count: gen.Size("small", b), Exhaustive: true, Desc: "all strings up to the bound over {*,_,a,SP,.,left double quote,NBSP,e-acute}", Batch: 100000},
-		{Gen: "c11long", Count: scale(tier, 1_000_000, 50_000_000), Desc: "random strings of 11-60 symbols biased to long same-character runs and run lengths summing to multiples of 3"},
+		{Gen: "c11long", Count: scale(tier, 3_000_000, 50_000_000), Desc: "random strings of 11-60 symbols biased to long same-character runs and run lengths summing to multiples of 3"},
 	}
 }
 
